@@ -425,6 +425,8 @@ def c01(ctx):
     # request must never come from another that overlaps it (TLC places the Apply steps; VaultConc computes Allow per caller)
     rc1, sc1 = conc_histories(ctx, "db", 1200 if th else 120, race=True, parts=16 if th else 8, opmix="acl")
     rc2, sc2 = conc_histories(ctx, "http", 800 if th else 80, race=True, parts=16 if th else 8, opmix="acl")
+    rc3, sc3 = conc_histories(ctx, "http", 800 if th else 120, race=True, parts=16 if th else 8, opmix="same")
+    sc2 = {k: sc2[k] + sc3[k] for k in sc2}
     tot = merge_tot(t1, t2, t3, t4)
     cov = {"states": ns + nsf, "transitions": tot.get("targets_covered", 0),
            "traces_validated_against_impl": v1["accepted"] + v2["accepted"] + sc1["accepted"] + sc2["accepted"],
@@ -635,6 +637,9 @@ def audit_concurrent(ctx):
     # through the HTTP handlers (callers with different grants asking for the same things at the same time): every caller that is
     # served or refused has a record of its own -- TLC counts the records against the history (no record lost, none shared)
     r0, st0 = conc_histories(ctx, "http", 800 if th else 100, race=True, parts=16 if th else 8, opmix="acl")
+    # ... and many identical reads by different callers, each entitled in its own right: one record per caller and request
+    r00, st00 = conc_histories(ctx, "http", 800 if th else 150, race=True, parts=16 if th else 8, opmix="same")
+    st0 = {k: st0[k] + st00[k] for k in st0}
     r, st = conc_histories(ctx, "db", 400 if th else 60, race=True, auditfile=True, parts=16 if th else 8)
     # and with a sink that has fsync semantics (a sync covers what was written when it began, and takes a while): when a call
     # returns, its own record must be covered by a completed sync -- also when other requests' syncs are in flight
@@ -696,7 +701,7 @@ def c08(ctx):
         om = ["GET", "PUT", "DELETE"]
         oc = ["jsoncs", "text", "none"]
         oh = ["other", "none"]
-        consts = {"EmitEdges": "TRUE", "Methods": q(["POST", om[s % 3]]), "CTypes": q(["json", oc[s % 3]]),
+        consts = {"EmitEdges": "TRUE", "Methods": q(["POST", "GET"] + ([om[s % 3]] if om[s % 3] != "GET" else [])), "CTypes": q(["json", oc[s % 3]]),
                   "Hdrs": q(["setec", oh[s % 2]])}
     run = ctx.tlc("HttpMC", cfg, workers=4, name="emit", timeout=3000, heap="8g", consts=consts)
     ctx.tlc_must_pass(run, "Http (emitting configuration)")
@@ -719,7 +724,7 @@ def c08(ctx):
                           "state are compared with the row"}
     return "model_checking", cov, ["WhoIs never returns a nil Node/UserProfile (tailscaled does not)",
                                    "a body with more data after a valid JSON value is only sent as a read-only primer before malformed requests (nothing of an earlier request may leak into the next)",
-                                   "quick tier: POST + one other method, application/json + one other content type, 'setec' + one other header value, rotated by seed"]
+                                   "quick tier: POST, GET + one other method, application/json + one other content type, 'setec' + one other header value, rotated by seed"]
 
 
 # ----------------------------------------------------------------------------- C04 / C13 file protocol
